@@ -7,6 +7,7 @@ package util
 import (
 	"encoding/hex"
 	"regexp"
+	"slices"
 )
 
 var (
@@ -53,7 +54,13 @@ func (rr RegexReplList) Replace(str string) string {
 
 // DecodeHexInString decode and replace all hex value in a given string of "key=value" format.
 func DecodeHexInString(str string) string {
-	for name, re := range regHex {
+	names := make([]string, 0, len(regHex))
+	for name := range regHex {
+		names = append(names, name)
+	}
+	slices.Sort(names)
+	for _, name := range names {
+		re := regHex[name]
 		str = re.ReplaceAllStringFunc(str, func(s string) string {
 			hexa := s[len(name)+1:]
 			bs, _ := hex.DecodeString(hexa)
